@@ -1,4 +1,14 @@
-// L2: radix string decoding (src/uint/encoding.rs, C17 decode side)
+// L2: radix string decoding (src/uint/encoding.rs) -- C17, decode side
+// body (proved, every LIMBS / every target): radix_preprocess_str, SliceDecodeByLimb::new / push_limb / limbs_mut, radix_decode_str_digits
+//   (generic radix), radix_decode_str_aligned_digits (radix 2/4/16), radix_decode_str, Uint::from_str_radix_vartime.
+//   radix_validate_digits (Ok <=> every byte is a digit of the radix or '_').
+// Contract (`decode_result`, exact -- lemma_decode_result_exact): Ok <=> the string is a numeral of the radix (`is_numeral`: optional '+', digits
+//   and interior '_', either case) whose value is < B^capacity, and then the decoded limbs have exactly its value; Err(Empty) <=> nothing after
+//   the optional '+'; Err(InvalidDigit) <=> non-empty and not a numeral; Err(InputSize) <=> numeral with value >= B^capacity; never
+//   Err(Precision). No panic for radix in 2..=36 (precondition), no truncated value.
+// assumed: `u64::ilog`, `u64::pow` (assume_specification), shim slice_strip_prefix_1 (= `<[u8]>::strip_prefix`), `<[T]>::fill` (l7_boxed_slices);
+//   use-site rewrites: `.iter().copied()` -> `.iter()` + `*c` (see the note at the substs). Hand-written: trait DecodeByLimb (declaration +
+//   contract), `limbs_mut` of the SliceDecodeByLimb impl (hand copy of a one-line method, verified; see the note there).
 use vstd::prelude::*;
 use vstd::arithmetic::power::*;
 use vstd::arithmetic::power2::*;
@@ -285,17 +295,30 @@ pub proof fn lemma_bp_radix(r: int, ld: nat, n: nat)
     ensures bp(n) == pow(r, ld * n)
 { lemma_pow_multiplies(r, ld, n); }
 
-/// what a decoder run establishes about its result `r` for the input string s: lv = the decoded limbs, cap = capacity of the target
+/// what a decoder run establishes about its result `r` for the input string s: lv = the decoded limbs, cap = capacity of the target.
+/// The four conditions are mutually exclusive and exhaustive, so every "=>" below is an "<=>" (lemma_decode_result_exact).
 pub open spec fn decode_result(s: Seq<u8>, radix: int, lv: Seq<Limb>, cap: nat, r: Result<(), DecodeError>) -> bool {
-    let b = numeral_body(s);
+    let b = numeral_body(s); let v = seg_val(b, 0, b.len() as int, radix);
     match r {
-        Ok(()) => is_numeral(s, radix) && val(lv, lv.len()) == seg_val(b, 0, b.len() as int, radix) && lv.len() <= cap,
+        Ok(()) => is_numeral(s, radix) && v < bp(cap) && val(lv, lv.len()) == v && lv.len() <= cap,
         Err(DecodeError::Empty) => b.len() == 0,
         Err(DecodeError::InvalidDigit) => b.len() > 0 && !is_numeral(s, radix),
-        Err(DecodeError::InputSize) => b.len() > 0 && (is_numeral(s, radix) ==> seg_val(b, 0, b.len() as int, radix) >= bp(cap)),
+        Err(DecodeError::InputSize) => is_numeral(s, radix) && v >= bp(cap),
         Err(DecodeError::Precision) => false,
     }
 }
+
+/// the outcome is determined by the input: Ok <=> numeral that fits; Empty <=> empty body; InvalidDigit <=> non-empty non-numeral;
+/// InputSize <=> numeral with value >= B^cap
+pub proof fn lemma_decode_result_exact(s: Seq<u8>, radix: int, lv: Seq<Limb>, cap: nat, r: Result<(), DecodeError>)
+    requires decode_result(s, radix, lv, cap, r)
+    ensures ({ let b = numeral_body(s); let v = seg_val(b, 0, b.len() as int, radix);
+        &&& (r is Ok) == (is_numeral(s, radix) && v < bp(cap))
+        &&& (r == Err::<(), DecodeError>(DecodeError::Empty)) == (b.len() == 0)
+        &&& (r == Err::<(), DecodeError>(DecodeError::InvalidDigit)) == (b.len() > 0 && !is_numeral(s, radix))
+        &&& (r == Err::<(), DecodeError>(DecodeError::InputSize)) == (is_numeral(s, radix) && v >= bp(cap))
+        &&& r != Err::<(), DecodeError>(DecodeError::Precision) })
+{ }
 
 //@@ subst \b(Self|Uint)::(ZERO|ONE|MAX|BITS|LOG2_BITS)\b(?!\() => \1::\2()
 //@@ fn src/uint/encoding.rs | impl<'de>SliceDecodeByLimb<'de> | new | body | props C17 C11
@@ -443,6 +466,45 @@ pub open spec fn match_digit(ch: u8, radix: u8) -> u8 { if digit_val(ch) >= 0 { 
 //@@ subst \.iter\(\)\.copied\(\) => .iter()
 //@@ subst \.iter\(\)\.rev\(\)\.copied\(\) => .iter().rev()
 //@@ subst \(c as Word\) => (*c as Word)
+//@@ fn src/uint/encoding.rs | - | radix_validate_digits | body | props C17 C11
+pub fn radix_validate_digits(digits: &[u8], radix: u8) -> (ret__: Result<(), DecodeError>)
+//@+
+    requires radix >= 1
+    ensures match ret__ {
+        Ok(()) => seg_ok(digits@, 0, digits@.len() as int, radix as int),
+        Err(DecodeError::InvalidDigit) => !seg_ok(digits@, 0, digits@.len() as int, radix as int),
+        Err(_) => false,
+    }
+//@-
+{
+    let mut i = 0;
+    while i < digits.len()
+//@+
+        invariant i <= digits@.len(), radix >= 1, seg_ok(digits@, 0, i as int, radix as int)
+        decreases digits@.len() - i
+//@-
+{
+//@+
+        let ghost ch = digits@[i as int];
+//@-
+        let digit = match digits[i] {
+            b @ b'0'..=b'9' => b - b'0',
+            b @ b'a'..=b'z' => b + 10 - b'a',
+            b @ b'A'..=b'Z' => b + 10 - b'A',
+            b'_' => 0,
+            _ => radix,
+        };
+//@+
+        assert((digit < radix) == char_ok(ch, radix as int));
+//@-
+        if digit >= radix {
+            return Err(DecodeError::InvalidDigit);
+        }
+        i += 1;
+    }
+    Ok(())
+}
+//@@ end
 /// r >= 2 ==> r^n >= 2^n
 pub proof fn lemma_pow_base2(r: int, n: nat)
     requires r >= 2
@@ -643,8 +705,19 @@ pub fn radix_decode_str_digits<D: DecodeByLimb>(
 //@-
         // Append the new carried limb, if any
         if carry.0 != 0 && !out.push_limb(carry) {
+            // a malformed numeral is reported as such even when it is also too long
 //@+
             proof {
+                let sub = dg.subrange(digits_pos as int, n);
+                lemma_seg_shift(dg, sub, digits_pos as int, 0, n - digits_pos, r);
+                if seg_ok(dg, digits_pos as int, n, r) { assert(seg_ok(dg, 0, n, r)); } else { assert(!seg_ok(dg, 0, n, r)); }
+            }
+//@-
+            radix_validate_digits(&digits[digits_pos..], radix)?;
+//@+
+            proof {
+                assert(seg_ok(dg, 0, n, r));
+                assert(is_numeral(src.spec_bytes(), r));
                 if is_numeral(src.spec_bytes(), r) {
                     lemma_seg_mono(dg, digits_pos as int, n, r);
                     let pb = bp(len);
@@ -671,6 +744,13 @@ pub fn radix_decode_str_digits<D: DecodeByLimb>(
         buf_pos = 0;
         buf[..limb_digits].fill(0);
     }
+//@+
+    proof {
+        let len = out.lv().len();
+        lemma_val_bound(out.lv(), len); lemma_bp_succ(0);
+        if len < out.cap() { lemma_pow_increases(B() as nat, len, out.cap()); }
+    }
+//@-
     Ok(())
 }
 //@@ end
@@ -821,8 +901,19 @@ pub fn radix_decode_str_aligned_digits<D: DecodeByLimb>(
 //@-
             // Append the new most-significant limb
             if !out.push_limb(Limb(w)) {
+                // a malformed numeral is reported as such even when it is also too long
 //@+
                 proof {
+                    let sub = dg.subrange(0, digits_pos as int);
+                    lemma_seg_shift(dg, sub, 0, 0, digits_pos as int, r);
+                    if seg_ok(dg, 0, digits_pos as int, r) { assert(seg_ok(dg, 0, n, r)); } else { assert(!seg_ok(dg, 0, n, r)); }
+                }
+//@-
+                radix_validate_digits(&digits[..digits_pos], radix)?;
+//@+
+                proof {
+                    assert(seg_ok(dg, 0, n, r));
+                    assert(is_numeral(src.spec_bytes(), r));
                     // more digits than the target holds, and the leading digit is not zero
                     if is_numeral(src.spec_bytes(), r) {
                         lemma_seg_split(dg, 0, digits_pos as int, n, r); lemma_seg_split(dg, digits_pos as int, p0, n, r);
@@ -849,6 +940,13 @@ pub fn radix_decode_str_aligned_digits<D: DecodeByLimb>(
             buf[..limb_digits].fill(0);
         }
     }
+//@+
+    proof {
+        let len = out.lv().len();
+        lemma_val_bound(out.lv(), len); lemma_bp_succ(0);
+        if len < out.cap() { lemma_pow_increases(B() as nat, len, out.cap()); }
+    }
+//@-
     Ok(())
 }
 //@@ end
@@ -892,9 +990,16 @@ pub fn from_str_radix_vartime(src: &str, radix: u32) -> (ret__: Result<Self, Dec
 //@+
     requires 2 <= radix <= 36, LIMBS >= 1
     ensures match ret__ {
-        Ok(u) => numeral_val(src.spec_bytes(), radix as int) == Some(u.v() as nat),
-        Err(e) => decode_result(src.spec_bytes(), radix as int, Seq::empty(), LIMBS as nat, Err(e)),
-    }
+            Ok(u) => numeral_val(src.spec_bytes(), radix as int) == Some(u.v() as nat),
+            Err(e) => decode_result(src.spec_bytes(), radix as int, Seq::empty(), LIMBS as nat, Err(e)),
+        },
+        // exact outcome (B^LIMBS = 2^BITS)
+        ({ let s = src.spec_bytes(); let r = radix as int; let b = numeral_body(s); let v = seg_val(b, 0, b.len() as int, r);
+           &&& (ret__ is Ok) == (is_numeral(s, r) && v < bp(LIMBS as nat))
+           &&& (ret__ matches Err(DecodeError::Empty)) == (b.len() == 0)
+           &&& (ret__ matches Err(DecodeError::InvalidDigit)) == (b.len() > 0 && !is_numeral(s, r))
+           &&& (ret__ matches Err(DecodeError::InputSize)) == (is_numeral(s, r) && v >= bp(LIMBS as nat))
+           &&& !(ret__ matches Err(DecodeError::Precision)) })
 //@-
 {
         let mut slf = Self::ZERO();
